@@ -1,23 +1,34 @@
 -------------------------------- MODULE Core --------------------------------
 (***************************************************************************)
 (* C01 / C07 - reference semantics of the core language as a small-step     *)
-(* abstract machine.  A machine state is a record                          *)
-(*   [mode, node, val, env, kont, heap, defs, out, halted, nid, target]    *)
+(* abstract machine (control, environment heap, continuation, output).     *)
+(* A machine state is a record                                             *)
+(*   [mode, node, val, env, kont, heap, defs, out, halted, nid, ex]        *)
 (* mode "eval": `node` is evaluated in environment frame `env`;            *)
-(* mode "ret" : `val` is returned to the top frame of `kont`;              *)
-(* mode "exit": a non-local exit with value `val` unwinds `kont` one frame *)
-(*              per step towards the block frame with id `target`,         *)
+(* mode "ret" : `val` (a sequence of values, multiple values) is returned  *)
+(*              to the top frame of `kont`;                                *)
+(* mode "exit": the non-local exit `ex` = [kind, target, tag, val] unwinds *)
+(*              `kont` one frame per step towards its target frame,        *)
 (*              diverting into the cleanup forms of every protect frame.   *)
 (* `heap` is a sequence of environment frames [parent, vars] so that       *)
 (* closures share bindings; `out` is the sequence of (mark id, value)      *)
 (* events, the observable trace.  Step(m) is a pure function; RunToMark    *)
-(* iterates it to the next observable event.                               *)
+(* iterates it to the next observable event.  Targets of return-from and   *)
+(* go are identified lexically: block and tagbody frames carry unique ids, *)
+(* the ids visible at a point are looked up in the continuation of the     *)
+(* same function activation (function bodies start a new lexical extent). *)
 (***************************************************************************)
 EXTENDS Integers, Sequences, TLC, FiniteSets
 Nil == [k |-> "nil"]
 T == [k |-> "t"]
+IntV(n) == [k |-> "int", v |-> n]
 IsTrue(v) == v.k # "nil"
 Bool(b) == IF b THEN T ELSE Nil
+\* a proper list value; the empty list is Nil
+ListV(s) == IF s = <<>> THEN Nil ELSE [k |-> "list", v |-> s]
+Elts(v) == IF v.k = "list" THEN v.v ELSE <<>>
+One(v) == <<v>>                                  \* a single value
+Prim(vs) == IF vs = <<>> THEN Nil ELSE vs[1]      \* primary value
 
 RECURSIVE LookupF(_,_,_)
 LookupF(vars, n, i) == IF i > Len(vars) THEN 0 ELSE IF vars[i].n = n THEN i ELSE LookupF(vars, n, i+1)
@@ -33,69 +44,153 @@ Set(heap, fid, n, v) == LET f == FindFrame(heap, fid, n) IN
 RECURSIVE FindDef(_,_,_)
 FindDef(defs, name, i) == IF i > Len(defs) THEN 0 ELSE IF defs[i].name = name THEN i ELSE FindDef(defs, name, i+1)
 
-RECURSIVE TargetIdFrom(_, _, _)
-TargetIdFrom(kont, name, i) == IF i > Len(kont) THEN 0
-                               ELSE IF kont[i].k = "block" /\ kont[i].name = name THEN kont[i].id
-                               ELSE TargetIdFrom(kont, name, i + 1)
-TargetId(kont, name) == TargetIdFrom(kont, name, 1)
-Ret(m, v) == [m EXCEPT !.mode = "ret", !.val = v]
+\* innermost frame of the current function activation that is the lexical target
+RECURSIVE BlockIdFrom(_, _, _)
+BlockIdFrom(kont, name, i) == IF i > Len(kont) \/ kont[i].k = "fnbody" THEN 0
+                              ELSE IF kont[i].k = "block" /\ kont[i].name = name THEN kont[i].id
+                              ELSE BlockIdFrom(kont, name, i + 1)
+HasTag(stmts, tag) == \E j \in 1..Len(stmts) : stmts[j].tag = tag
+RECURSIVE TagbodyIdFrom(_, _, _)
+TagbodyIdFrom(kont, tag, i) == IF i > Len(kont) \/ kont[i].k = "fnbody" THEN 0
+                               ELSE IF kont[i].k = "tagbody" /\ HasTag(kont[i].stmts, tag) THEN kont[i].id
+                               ELSE TagbodyIdFrom(kont, tag, i + 1)
+Ret(m, v) == [m EXCEPT !.mode = "ret", !.val = One(v)]
+RetVs(m, vs) == [m EXCEPT !.mode = "ret", !.val = vs]
 Ev(m, node, env) == [m EXCEPT !.mode = "eval", !.node = node, !.env = env]
 Push(m, fr) == [m EXCEPT !.kont = <<fr>> \o m.kont]
 Pop(m) == [m EXCEPT !.kont = Tail(m.kont)]
 Body(m, forms, env) == Ev(m, [k |-> "progn", es |-> forms], env)
 NewFrame(m, parent, vs) == LET h2 == Append(m.heap, [parent |-> parent, vars |-> vs]) IN [m EXCEPT !.heap = h2]
-Bindings(ps, vals) == [j \in 1..Len(ps) |-> [n |-> ps[j], v |-> vals[j]]]
+Top(m) == Len(m.heap)                             \* id of the frame NewFrame just made
+Bindings(ps, vals) == [j \in 1..Len(ps) |-> [n |-> ps[j], v |-> IF j <= Len(vals) THEN vals[j] ELSE Nil]]
+Exit(m, kind, target, tag, v) == [m EXCEPT !.mode = "exit", !.ex = [kind |-> kind, target |-> target, tag |-> tag, val |-> v]]
+Err(m, class) == Exit(m, "error", 0, class, Nil)
+RECURSIVE SumOf(_)
+SumOf(args) == IF args = <<>> THEN 0 ELSE args[1].v + SumOf(Tail(args))
+\* applying a function value to argument values: a closure or a named function
+Apply(m, f, args) ==
+  IF f.k = "clo" THEN Body(Push(NewFrame(m, f.env, Bindings(f.ps, args)), [k |-> "fnbody"]), f.body, Len(m.heap) + 1)
+  ELSE IF f.k = "fn" /\ FindDef(m.defs, f.name, 1) > 0
+       THEN LET d == m.defs[FindDef(m.defs, f.name, 1)] IN
+            Body(Push(NewFrame(m, 1, Bindings(d.ps, args)), [k |-> "fnbody"]), d.body, Len(m.heap) + 1)
+  ELSE IF f.k = "fn" /\ f.name = "+" THEN Ret(m, IntV(SumOf(args)))
+  ELSE Err(m, "undefined-function")
 
 StepEval(m) ==
   LET n == m.node IN
   CASE n.k = "lit" -> Ret(m, n.v)
-    [] n.k = "var" -> Ret(m, Get(m.heap, m.env, n.n))
+    [] n.k = "var" -> LET v == Get(m.heap, m.env, n.n) IN IF v.k = "unbound" THEN Err(m, "unbound-variable") ELSE Ret(m, v)
     [] n.k = "setq" -> Ev(Push(m, [k |-> "setq", n |-> n.n, env |-> m.env]), n.e, m.env)
     [] n.k = "progn" -> IF Len(n.es) = 0 THEN Ret(m, Nil)
+                        ELSE IF Len(n.es) = 1 THEN Ev(m, n.es[1], m.env)       \* the last form's values are the values
                         ELSE Ev(Push(m, [k |-> "progn", rest |-> Tail(n.es), env |-> m.env]), n.es[1], m.env)
+    [] n.k = "prog1" -> Ev(Push(m, [k |-> "prog1a", rest |-> Tail(n.es), env |-> m.env]), n.es[1], m.env)
     [] n.k = "and" -> IF Len(n.es) = 0 THEN Ret(m, T)
                       ELSE Ev(Push(m, [k |-> "and", rest |-> Tail(n.es), env |-> m.env]), n.es[1], m.env)
     [] n.k = "or" -> IF Len(n.es) = 0 THEN Ret(m, Nil)
                      ELSE Ev(Push(m, [k |-> "or", rest |-> Tail(n.es), env |-> m.env]), n.es[1], m.env)
     [] n.k = "if" -> Ev(Push(m, [k |-> "if", a |-> n.a, b |-> n.b, env |-> m.env]), n.c, m.env)
+    [] n.k \in {"when", "unless"} -> Ev(Push(m, [k |-> n.k, body |-> n.body, env |-> m.env]), n.c, m.env)
+    [] n.k = "cond" -> IF Len(n.cs) = 0 THEN Ret(m, Nil)
+                       ELSE Ev(Push(m, [k |-> "cond", cs |-> n.cs, env |-> m.env]), n.cs[1].c, m.env)
+    [] n.k = "case" -> Ev(Push(m, [k |-> "case", cs |-> n.cs, env |-> m.env]), n.e, m.env)
     [] n.k = "mark" -> Ev(Push(m, [k |-> "mark", id |-> n.id]), n.e, m.env)
-    [] n.k \in {"add", "lt"} -> Ev(Push(m, [k |-> "bin1", op |-> n.k, b |-> n.b, env |-> m.env]), n.a, m.env)
+    [] n.k \in {"add", "sub", "lt", "eq", "cons"} -> Ev(Push(m, [k |-> "bin1", op |-> n.k, b |-> n.b, env |-> m.env]), n.a, m.env)
+    [] n.k \in {"car", "cdr"} -> Ev(Push(m, [k |-> "un", op |-> n.k]), n.a, m.env)
+    [] n.k \in {"list", "values"} -> IF Len(n.es) = 0 THEN (IF n.k = "list" THEN Ret(m, Nil) ELSE RetVs(m, <<>>))
+                                     ELSE Ev(Push(m, [k |-> "args", op |-> n.k, rest |-> Tail(n.es), acc |-> <<>>, env |-> m.env]), n.es[1], m.env)
     [] n.k \in {"let", "letx"} ->
          IF Len(n.bs) = 0 THEN Body(NewFrame(m, m.env, <<>>), n.body, Len(m.heap) + 1)
          ELSE IF n.k = "let"
               THEN Ev(Push(m, [k |-> "let", bs |-> n.bs, i |-> 1, acc |-> <<>>, body |-> n.body, env |-> m.env]), n.bs[1].e, m.env)
               ELSE LET m2 == NewFrame(m, m.env, <<>>)  e2 == Len(m.heap) + 1 IN
                    Ev(Push(m2, [k |-> "letx", bs |-> n.bs, i |-> 1, body |-> n.body, env |-> e2]), n.bs[1].e, e2)
+    [] n.k = "mvb" -> Ev(Push(m, [k |-> "mvb", vars |-> n.vars, body |-> n.body, env |-> m.env]), n.e, m.env)
     [] n.k = "lam" -> Ret(m, [k |-> "clo", ps |-> n.ps, body |-> n.body, env |-> m.env])
+    [] n.k = "fnref" -> Ret(m, [k |-> "fn", name |-> n.name])
     [] n.k = "block" -> Body(Push([m EXCEPT !.nid = m.nid + 1], [k |-> "block", name |-> n.name, id |-> m.nid]), n.body, m.env)
     [] n.k = "retfrom" -> Ev(Push(m, [k |-> "retfrom", name |-> n.name]), n.e, m.env)
     [] n.k = "protect" -> Ev(Push(m, [k |-> "protect", cleanup |-> n.cleanup, env |-> m.env]), n.e, m.env)
-    [] n.k = "fcall" -> Ev(Push(m, [k |-> "fc", args |-> n.args, i |-> 0, f |-> Nil, acc |-> <<>>, env |-> m.env]), n.f, m.env)
-    [] n.k = "call" -> IF Len(n.args) = 0 THEN
-                         LET d == m.defs[FindDef(m.defs, n.f, 1)] IN Body(NewFrame(m, 1, <<>>), d.body, Len(m.heap) + 1)
+    [] n.k = "tagbody" -> LET m2 == Push([m EXCEPT !.nid = m.nid + 1], [k |-> "tagbody", stmts |-> n.stmts, i |-> 1, id |-> m.nid, env |-> m.env]) IN
+                          IF Len(n.stmts) = 0 THEN Ret(m, Nil) ELSE Ev(m2, n.stmts[1].e, m.env)
+    [] n.k = "go" -> LET tgt == TagbodyIdFrom(m.kont, n.tag, 1) IN
+                     IF tgt = 0 THEN Err(m, "control-error") ELSE Exit(m, "go", tgt, n.tag, Nil)
+    [] n.k = "error" -> Err(m, n.class)
+    [] n.k = "ignerr" -> Body(Push(m, [k |-> "ignerr"]), n.body, m.env)
+    [] n.k = "fcall" -> Ev(Push(m, [k |-> "fc", args |-> n.args, i |-> 0, f |-> Nil, acc |-> <<>>, spread |-> n.spread, env |-> m.env]), n.f, m.env)
+    [] n.k = "call" -> IF Len(n.args) = 0 THEN Apply(m, [k |-> "fn", name |-> n.f], <<>>)
                        ELSE Ev(Push(m, [k |-> "call", f |-> n.f, args |-> n.args, i |-> 1, acc |-> <<>>, env |-> m.env]), n.args[1], m.env)
+    [] n.k = "mapcar" -> Ev(Push(m, [k |-> "map1", l |-> n.l, env |-> m.env]), n.f, m.env)
+    [] n.k = "dolist" -> Ev(Push(m, [k |-> "dolist0", var |-> n.var, res |-> n.res, body |-> n.body, env |-> m.env]), n.l, m.env)
+    [] n.k = "dotimes" -> Ev(Push(m, [k |-> "dotimes0", var |-> n.var, res |-> n.res, body |-> n.body, env |-> m.env]), n.c, m.env)
+    [] n.k = "do" ->
+         \* (do / do* ((var init step) ...) (test result ...) body ...): an implicit block nil around everything
+         LET blk == [k |-> "block", name |-> "nil", id |-> m.nid]
+             m0  == Push([m EXCEPT !.nid = m.nid + 1], blk) IN
+         IF Len(n.vars) = 0 THEN Ev(Push(NewFrame(m0, m.env, <<>>), [k |-> "dotest", n |-> n, env |-> Len(m.heap) + 1]), n.test, Len(m.heap) + 1)
+         ELSE IF n.star
+              THEN LET m2 == NewFrame(m0, m.env, <<>>)  e2 == Len(m.heap) + 1 IN
+                   Ev(Push(m2, [k |-> "doinit", n |-> n, i |-> 1, acc |-> <<>>, env |-> e2, outer |-> m.env]), n.vars[1].init, e2)
+              ELSE Ev(Push(m0, [k |-> "doinit", n |-> n, i |-> 1, acc |-> <<>>, env |-> 0, outer |-> m.env]), n.vars[1].init, m.env)
+    [] OTHER -> Err(m, "machine-stuck-at-node-" \o n.k)
+
+\* the loop machinery shared by dolist / dotimes: iteration j over items, each in a fresh frame binding var
+LoopNext(m1, fr) ==
+  IF fr.items = <<>>
+  THEN \* the result form sees the variable (nil for dolist, the count for dotimes)
+       LET m2 == NewFrame(m1, fr.env, <<[n |-> fr.var, v |-> fr.last]>>) IN
+       Ev(Push(m2, [k |-> "loopres"]), fr.res, Top(m2))
+  ELSE LET m2 == NewFrame(m1, fr.env, <<[n |-> fr.var, v |-> fr.items[1]]>>) IN
+       Body(Push(m2, [fr EXCEPT !.items = Tail(fr.items)]), fr.body, Top(m2))
+RECURSIVE Upto(_, _)
+Upto(i, n) == IF i >= n THEN <<>> ELSE <<IntV(i)>> \o Upto(i + 1, n)
+DoVarsFrame(n, vals) == [j \in 1..Len(n.vars) |-> [n |-> n.vars[j].n, v |-> vals[j]]]
 
 StepRet(m) ==
   IF Len(m.kont) = 0 THEN [m EXCEPT !.halted = TRUE]
-  ELSE LET fr == m.kont[1]  m1 == Pop(m)  v == m.val IN
+  ELSE LET fr == m.kont[1]  m1 == Pop(m)  v == Prim(m.val) IN
   CASE fr.k = "setq" -> Ret([m1 EXCEPT !.heap = Set(m.heap, fr.env, fr.n, v)], v)
-    [] fr.k = "progn" -> IF Len(fr.rest) = 0 THEN Ret(m1, v)
+    [] fr.k = "progn" -> IF Len(fr.rest) = 1 THEN Ev(m1, fr.rest[1], fr.env)
                          ELSE Ev(Push(m1, [fr EXCEPT !.rest = Tail(fr.rest)]), fr.rest[1], fr.env)
-    [] fr.k = "and" -> IF ~IsTrue(v) \/ Len(fr.rest) = 0 THEN Ret(m1, v)
+    [] fr.k = "prog1a" -> IF Len(fr.rest) = 0 THEN Ret(m1, v)
+                          ELSE Ev(Push(m1, [k |-> "prog1b", keep |-> v, rest |-> Tail(fr.rest), env |-> fr.env]), fr.rest[1], fr.env)
+    [] fr.k = "prog1b" -> IF Len(fr.rest) = 0 THEN Ret(m1, fr.keep)
+                          ELSE Ev(Push(m1, [fr EXCEPT !.rest = Tail(fr.rest)]), fr.rest[1], fr.env)
+    [] fr.k = "and" -> IF ~IsTrue(v) THEN Ret(m1, v) ELSE IF Len(fr.rest) = 0 THEN RetVs(m1, m.val)
                        ELSE Ev(Push(m1, [fr EXCEPT !.rest = Tail(fr.rest)]), fr.rest[1], fr.env)
-    [] fr.k = "or" -> IF IsTrue(v) \/ Len(fr.rest) = 0 THEN Ret(m1, v)
+    [] fr.k = "or" -> IF Len(fr.rest) = 0 THEN RetVs(m1, m.val) ELSE IF IsTrue(v) THEN Ret(m1, v)
                       ELSE Ev(Push(m1, [fr EXCEPT !.rest = Tail(fr.rest)]), fr.rest[1], fr.env)
     [] fr.k = "if" -> Ev(m1, IF IsTrue(v) THEN fr.a ELSE fr.b, fr.env)
+    [] fr.k = "when" -> IF IsTrue(v) THEN Body(m1, fr.body, fr.env) ELSE Ret(m1, Nil)
+    [] fr.k = "unless" -> IF IsTrue(v) THEN Ret(m1, Nil) ELSE Body(m1, fr.body, fr.env)
+    [] fr.k = "cond" -> IF IsTrue(v)
+                        THEN (IF Len(fr.cs[1].body) = 0 THEN Ret(m1, v) ELSE Body(m1, fr.cs[1].body, fr.env))
+                        ELSE IF Len(fr.cs) = 1 THEN Ret(m1, Nil)
+                        ELSE Ev(Push(m1, [fr EXCEPT !.cs = Tail(fr.cs)]), fr.cs[2].c, fr.env)
+    [] fr.k = "case" -> LET hit == SelectSeq(fr.cs, LAMBDA c : c.dflt \/ \E j \in 1..Len(c.keys) : c.keys[j] = v) IN
+                        IF hit = <<>> THEN Ret(m1, Nil) ELSE Body(m1, hit[1].body, fr.env)
     [] fr.k = "mark" -> Ret([m1 EXCEPT !.out = Append(m.out, [id |-> fr.id, v |-> v])], v)
-    [] fr.k = "block" -> Ret(m1, v)
-    [] fr.k = "retfrom" -> LET tgt == TargetId(m1.kont, fr.name) IN
-                           IF tgt = 0 THEN [m1 EXCEPT !.mode = "ret", !.val = [k |-> "err", c |-> "control-error"], !.kont = <<>>]
-                           ELSE [m1 EXCEPT !.mode = "exit", !.val = v, !.target = tgt]
-    [] fr.k = "protect" -> Body(Push(m1, [k |-> "after-cleanup", exit |-> FALSE, val |-> v, target |-> 0]), fr.cleanup, fr.env)
-    [] fr.k = "after-cleanup" -> IF fr.exit THEN [m1 EXCEPT !.mode = "exit", !.val = fr.val, !.target = fr.target]
-                                 ELSE Ret(m1, fr.val)
+    [] fr.k \in {"block", "fnbody", "ignerr"} -> RetVs(m1, m.val)
+    [] fr.k = "retfrom" -> LET tgt == BlockIdFrom(m1.kont, fr.name, 1) IN
+                           IF tgt = 0 THEN Err(m1, "control-error") ELSE Exit(m1, "return", tgt, "", v)
+    [] fr.k = "protect" -> Body(Push(m1, [k |-> "after-cleanup", pending |-> FALSE, vals |-> m.val, ex |-> m.ex]), fr.cleanup, fr.env)
+    [] fr.k = "after-cleanup" -> IF fr.pending THEN [m1 EXCEPT !.mode = "exit", !.ex = fr.ex] ELSE RetVs(m1, fr.vals)
+    [] fr.k = "tagbody" -> IF fr.i >= Len(fr.stmts) THEN Ret(m1, Nil)
+                           ELSE Ev(Push(m1, [fr EXCEPT !.i = fr.i + 1]), fr.stmts[fr.i + 1].e, fr.env)
     [] fr.k = "bin1" -> Ev(Push(m1, [k |-> "bin2", op |-> fr.op, a |-> v]), fr.b, fr.env)
-    [] fr.k = "bin2" -> Ret(m1, IF fr.op = "add" THEN [k |-> "int", v |-> fr.a.v + v.v] ELSE Bool(fr.a.v < v.v))
+    \* (a nested CASE must be parenthesised: following [] arms would otherwise be read as its arms)
+    [] fr.k = "bin2" -> (CASE fr.op = "add" -> Ret(m1, IntV(fr.a.v + v.v))
+                          [] fr.op = "sub" -> Ret(m1, IntV(fr.a.v - v.v))
+                          [] fr.op = "lt" -> Ret(m1, Bool(fr.a.v < v.v))
+                          [] fr.op = "eq" -> Ret(m1, Bool(fr.a = v))
+                          [] fr.op = "cons" -> Ret(m1, ListV(<<fr.a>> \o Elts(v)))
+                          [] OTHER -> Err(m1, "machine-stuck-at-operator-" \o fr.op))
+    [] fr.k = "un" -> LET es == Elts(v) IN
+                      IF fr.op = "car" THEN Ret(m1, IF es = <<>> THEN Nil ELSE es[1])
+                      ELSE Ret(m1, IF Len(es) <= 1 THEN Nil ELSE ListV(Tail(es)))
+    [] fr.k = "args" -> LET acc == Append(fr.acc, v) IN
+                        IF Len(fr.rest) = 0 THEN (IF fr.op = "list" THEN Ret(m1, ListV(acc)) ELSE RetVs(m1, acc))
+                        ELSE Ev(Push(m1, [fr EXCEPT !.rest = Tail(fr.rest), !.acc = acc]), fr.rest[1], fr.env)
     [] fr.k = "let" -> LET acc == Append(fr.acc, [n |-> fr.bs[fr.i].n, v |-> v]) IN
                        IF fr.i = Len(fr.bs)
                        THEN Body(NewFrame(m1, fr.env, acc), fr.body, Len(m.heap) + 1)
@@ -104,26 +199,77 @@ StepRet(m) ==
                             m2 == [m1 EXCEPT !.heap = h2] IN
                         IF fr.i = Len(fr.bs) THEN Body(m2, fr.body, fr.env)
                         ELSE Ev(Push(m2, [fr EXCEPT !.i = fr.i + 1]), fr.bs[fr.i+1].e, fr.env)
+    [] fr.k = "mvb" -> Body(NewFrame(m1, fr.env, Bindings(fr.vars, m.val)), fr.body, Len(m.heap) + 1)
     [] fr.k = "fc" -> LET f == IF fr.i = 0 THEN v ELSE fr.f
                           acc == IF fr.i = 0 THEN <<>> ELSE Append(fr.acc, v) IN
                       IF fr.i = Len(fr.args)
-                      THEN Body(NewFrame(m1, f.env, Bindings(f.ps, acc)), f.body, Len(m.heap) + 1)
+                      THEN \* apply spreads its last argument
+                           Apply(m1, f, IF fr.spread /\ acc # <<>> THEN SubSeq(acc, 1, Len(acc) - 1) \o Elts(acc[Len(acc)]) ELSE acc)
                       ELSE Ev(Push(m1, [fr EXCEPT !.i = fr.i + 1, !.f = f, !.acc = acc]), fr.args[fr.i+1], fr.env)
     [] fr.k = "call" -> LET acc == Append(fr.acc, v) IN
-                        IF fr.i = Len(fr.args)
-                        THEN LET d == m.defs[FindDef(m.defs, fr.f, 1)] IN
-                             Body(NewFrame(m1, 1, Bindings(d.ps, acc)), d.body, Len(m.heap) + 1)
+                        IF fr.i = Len(fr.args) THEN Apply(m1, [k |-> "fn", name |-> fr.f], acc)
                         ELSE Ev(Push(m1, [fr EXCEPT !.i = fr.i + 1, !.acc = acc]), fr.args[fr.i+1], fr.env)
+    [] fr.k = "map1" -> Ev(Push(m1, [k |-> "map2", f |-> v]), fr.l, fr.env)
+    [] fr.k = "map2" -> LET es == Elts(v) IN
+                        IF es = <<>> THEN Ret(m1, Nil)
+                        ELSE Apply(Push(m1, [k |-> "map3", f |-> fr.f, rest |-> Tail(es), acc |-> <<>>]), fr.f, <<es[1]>>)
+    [] fr.k = "map3" -> LET acc == Append(fr.acc, v) IN
+                        IF fr.rest = <<>> THEN Ret(m1, ListV(acc))
+                        ELSE Apply(Push(m1, [fr EXCEPT !.rest = Tail(fr.rest), !.acc = acc]), fr.f, <<fr.rest[1]>>)
+    [] fr.k = "dolist0" -> LET blk == [k |-> "block", name |-> "nil", id |-> m.nid] IN
+                           LoopNext(Push([m1 EXCEPT !.nid = m.nid + 1], blk),
+                                    [k |-> "loop", var |-> fr.var, items |-> Elts(v), last |-> Nil, res |-> fr.res, body |-> fr.body, env |-> fr.env])
+    [] fr.k = "dotimes0" -> LET blk == [k |-> "block", name |-> "nil", id |-> m.nid]  c == IF v.k = "int" THEN v.v ELSE 0 IN
+                            LoopNext(Push([m1 EXCEPT !.nid = m.nid + 1], blk),
+                                     [k |-> "loop", var |-> fr.var, items |-> Upto(0, c), last |-> IntV(IF c < 0 THEN 0 ELSE c), res |-> fr.res, body |-> fr.body, env |-> fr.env])
+    [] fr.k = "loop" -> LoopNext(m1, fr)
+    [] fr.k = "loopres" -> RetVs(m1, m.val)           \* then the implicit block frame returns it
+    [] fr.k = "doinit" ->
+         LET n == fr.n  acc == Append(fr.acc, v) IN
+         IF n.star
+         THEN LET h2 == [m.heap EXCEPT ![fr.env].vars = Append(@, [n |-> n.vars[fr.i].n, v |-> v])]
+                  m2 == [m1 EXCEPT !.heap = h2] IN
+              IF fr.i = Len(n.vars) THEN Ev(Push(m2, [k |-> "dotest", n |-> n, env |-> fr.env]), n.test, fr.env)
+              ELSE Ev(Push(m2, [fr EXCEPT !.i = fr.i + 1]), n.vars[fr.i + 1].init, fr.env)
+         ELSE IF fr.i = Len(n.vars)
+              THEN LET m2 == NewFrame(m1, fr.outer, DoVarsFrame(n, acc)) IN
+                   Ev(Push(m2, [k |-> "dotest", n |-> n, env |-> Top(m2)]), n.test, Top(m2))
+              ELSE Ev(Push(m1, [fr EXCEPT !.i = fr.i + 1, !.acc = acc]), n.vars[fr.i + 1].init, fr.outer)
+    [] fr.k = "dotest" -> IF IsTrue(v) THEN Body(m1, fr.n.res, fr.env)     \* values of the result forms leave through the block frame
+                          ELSE Body(Push(m1, [k |-> "dobody", n |-> fr.n, env |-> fr.env]), fr.n.body, fr.env)
+    [] fr.k = "dobody" -> IF Len(fr.n.vars) = 0 THEN Ev(Push(m1, [k |-> "dotest", n |-> fr.n, env |-> fr.env]), fr.n.test, fr.env)
+                          ELSE Ev(Push(m1, [k |-> "dostep", n |-> fr.n, i |-> 1, acc |-> <<>>, env |-> fr.env]), fr.n.vars[1].step, fr.env)
+    [] fr.k = "dostep" ->
+         LET n == fr.n  acc == Append(fr.acc, v) IN
+         IF n.star
+         THEN LET m2 == [m1 EXCEPT !.heap = Set(m.heap, fr.env, n.vars[fr.i].n, v)] IN
+              IF fr.i = Len(n.vars) THEN Ev(Push(m2, [k |-> "dotest", n |-> n, env |-> fr.env]), n.test, fr.env)
+              ELSE Ev(Push(m2, [fr EXCEPT !.i = fr.i + 1]), n.vars[fr.i + 1].step, fr.env)
+         ELSE IF fr.i = Len(n.vars)
+              THEN \* parallel assignment of all step values
+                   LET RECURSIVE SetAll(_, _)
+                       SetAll(h, j) == IF j > Len(n.vars) THEN h ELSE SetAll(Set(h, fr.env, n.vars[j].n, acc[j]), j + 1)
+                       m2 == [m1 EXCEPT !.heap = SetAll(m.heap, 1)] IN
+                   Ev(Push(m2, [k |-> "dotest", n |-> n, env |-> fr.env]), n.test, fr.env)
+              ELSE Ev(Push(m1, [fr EXCEPT !.i = fr.i + 1, !.acc = acc]), n.vars[fr.i + 1].step, fr.env)
+    [] OTHER -> Err(m1, "machine-stuck-at-frame-" \o fr.k)
 
+\* index of statement carrying the tag
+TagIndex(stmts, tag) == CHOOSE j \in 1..Len(stmts) : stmts[j].tag = tag
 StepExit(m) ==
-  LET fr == m.kont[1]  m1 == Pop(m) IN
-  IF fr.k = "block" /\ fr.id = m.target THEN Ret(m1, m.val)
+  IF Len(m.kont) = 0 THEN [m EXCEPT !.halted = TRUE, !.mode = "ret", !.val = One([k |-> "err", c |-> m.ex.tag])]
+  ELSE LET fr == m.kont[1]  m1 == Pop(m)  x == m.ex IN
+  IF fr.k = "block" /\ x.kind = "return" /\ fr.id = x.target THEN Ret(m1, x.val)
+  ELSE IF fr.k = "tagbody" /\ x.kind = "go" /\ fr.id = x.target
+       THEN LET j == TagIndex(fr.stmts, x.tag) IN Ev(Push(m1, [fr EXCEPT !.i = j]), fr.stmts[j].e, fr.env)
+  ELSE IF fr.k = "ignerr" /\ x.kind = "error" THEN Ret(m1, Nil)
   ELSE IF fr.k = "protect"
-       THEN Body(Push([m1 EXCEPT !.mode = "eval"], [k |-> "after-cleanup", exit |-> TRUE, val |-> m.val, target |-> m.target]), fr.cleanup, fr.env)
-       ELSE m1
+       THEN Body(Push([m1 EXCEPT !.mode = "eval"], [k |-> "after-cleanup", pending |-> TRUE, vals |-> <<>>, ex |-> x]), fr.cleanup, fr.env)
+  ELSE m1
 Step(m) == IF m.mode = "eval" THEN StepEval(m) ELSE IF m.mode = "exit" THEN StepExit(m) ELSE StepRet(m)
 RECURSIVE RunToMark(_,_)
 RunToMark(m, n) == IF m.halted \/ Len(m.out) > n THEN m ELSE RunToMark(Step(m), n)
-Load(defs, ast) == [mode |-> "eval", node |-> ast, val |-> Nil, env |-> 1, kont |-> <<>>, defs |-> defs,
-                    heap |-> << [parent |-> 0, vars |-> <<>>] >>, out |-> <<>>, halted |-> FALSE, nid |-> 1, target |-> 0]
+NoExit == [kind |-> "", target |-> 0, tag |-> "", val |-> Nil]
+Load(defs, ast) == [mode |-> "eval", node |-> ast, val |-> One(Nil), env |-> 1, kont |-> <<>>, defs |-> defs,
+                    heap |-> << [parent |-> 0, vars |-> <<>>] >>, out |-> <<>>, halted |-> FALSE, nid |-> 1, ex |-> NoExit]
 =============================================================================
